@@ -16,6 +16,8 @@ import PyTough.Proofs.ListingFile
 import PyTough.Proofs.ListingSeriesStep
 import PyTough.Proofs.ListingSeriesTimes
 import PyTough.Proofs.ListingSeriesTerm
+import PyTough.Proofs.ListingSeries2Aut
+import PyTough.Props.C05
 
 namespace Props.C06
 open Py Model Model.Listing Proofs.History Proofs.SeriesStep Proofs.SeriesTimes
@@ -103,6 +105,67 @@ example : exT.data.size = exT.rows.size ∧ rowInPlace exT exL 0 0 = true ∧ ro
 -- history() asked for X of row 1 (line 2) and then P of row 0 reads them in line order
 example : (scanSel (fun l => readTableLineTOUGH2 l 3 exT.numpos) (colIdx exT.cols) (sortSel [(2, ['X'], false, 0), (0, ['P'], false, 1)]) 0
     (exL.headD []) exL.tail).map (·.1) = .ok [(1, .fin false 99013 2), (0, .fin true 66842 (-4))] := by decide
+
+/-! ### the same for the AUTOUGH2 row loop (terminator-driven: rows are filled in printing order)
+
+  The region of an AUTOUGH2 table is `Proofs.Whole.autRegion A b B b2 Bl D term tail` (title block, blank line, column header,
+  blank lines, printed data lines `D`, the terminator line, what follows), well-formed for the set-up table `t` when
+  `Props.C05.TableRegionA` holds (decidable on concrete lines).  AUTOUGH2 tables have no `row_line`: the line index history() uses
+  for row `j` is `j` itself, counted from the first results line = the first data line. -/
+
+open Proofs.Whole Proofs.Series2Aut in
+/-- PARTIAL (one table at one result time; explicit decidable hypothesis `TableRegionA` on the lines of the table; every selected
+    line index addresses a printed data line).  For a reader whose `read_table_line` is `read_table_line_AUTOUGH2`: the stepping
+    reader (`read_table_AUTOUGH2`, started behind the table's keyword line) succeeds on the region and builds table `t'`; for ANY
+    selection `ts` of rows (any number, any order, repeats, reversed names) the one-pass read of history() over the lines from the
+    first data line on returns, entry by entry in sorted order, the cell of row `e.1` (= its line index), column `e.col`, of `t'`,
+    negated for a reversed name — and raises KeyError exactly when the column does not exist.
+    Not proved here: that skip_to_table_AUTOUGH2 brings the file to the column header of this region (`Aligned`; checked on every
+    run by the correspondence); `history_scan_starts_at_first_data_line_AUTOUGH2` below covers skip_to_results_line from there. -/
+theorem history_table_eq_stepping_AUTOUGH2_partial (fam : Fam) (tn : String) (t : Table) (s : Rd)
+    (A : List Str) (b : Str) (B : List Str) (b2 : Str) (Bl D : List Str) (term : Str) (tail : List Str)
+    (hfam : (bound fam "read_table_line" == "read_table_line_AUTOUGH2") = true)
+    (ht : s.tables.lookup tn = some t)
+    (hrest : s.pos.rest = autRegion A b B b2 Bl D term tail)
+    (hwf : Props.C05.TableRegionA tn t A b B b2 Bl D term)
+    (ts : List Sel) (hsel : ∀ e ∈ ts, 0 ≤ e.1 ∧ e.1 < D.length) :
+    ∃ s' t', (readTableAUTOUGH2 tn).run s = .ok ((), s') ∧ s'.tables.lookup tn = some t' ∧
+      (scanSel (readTableLineOf fam t) (colIdx t.cols) (sortSel ts) 0 ((D ++ [term]).headD []) ((D ++ [term]).tail ++ tail)).map (·.1)
+        = (sortSel ts).mapM (fun e => steppingCell t' e.1.toNat e) := by
+  obtain ⟨s', t', hrun, _, htab, hframe, _, hrows, _⟩ := Props.C05.table_read_AUTOUGH2 tn t s A b B b2 Bl D term tail ht hrest hwf
+  refine ⟨s', t', hrun, htab, ?_⟩
+  rw [readTableLineOf_A fam t hfam]
+  exact scan_eq_stepping_A t.cols t' D term tail (t.numpos.headD none) (by rw [hframe]) hrows ts hsel
+
+open Proofs.Series2Aut in
+/-- … and `L = D ++ term :: tail` IS where history() starts its pass: from the column header of the region (behind the first blank
+    line, where skip_to_table_AUTOUGH2's `skip_to_blank; skip_to_nonblank` leave the file) `skip_to_results_line` stops at the
+    first printed data line, when no line of the header block shows the awaited number of floats and the first data line does. -/
+theorem history_scan_starts_at_first_data_line_AUTOUGH2 (e : Int) (B : List Str) (b2 : Str) (Bl : List Str) (d : Str) (D' : List Str)
+    (term : Str) (tail : List Str) (n : Nat)
+    (hhead : ∀ x ∈ B ++ b2 :: Bl, isResultsLine (strip x) e = false) (hd : isResultsLine (strip d) e = true) :
+    skipToResultsLineL e (B ++ b2 :: (Bl ++ (((d :: D') ++ [term]) ++ tail))) n 1
+      = some (1 + (B.length + 1 + Bl.length), ⟨n + (B.length + 1 + Bl.length), ((d :: D') ++ [term]) ++ tail⟩) :=
+  skipToResultsLine_region_A e B b2 Bl d D' term tail n hhead hd
+
+-- an AUTOUGH2 element table of two rows between its two `EEEEE` lines; the reader stands behind the first
+private def exAT : Table := { mkTable [['P'], ['T']] #[["A 1".toList], ["B 1".toList]] 1 false with keyPos := [1], numpos := [some 8] }
+private def exAD : List Str := [" A 1  1  1.5 2.5\n".toList, " B 1  2  3.5 4.5\n".toList]
+private def exARd : Rd :=
+  let ls := Proofs.Whole.autRegion [" a title line\n".toList] "\n".toList [" ELEM INDEX P T\n".toList] "\n".toList [] exAD " EEEEE\n".toList ["\n".toList]
+  { all := ls, isOutputData := false, pos := ⟨2, ls⟩, fam := Fam.autough2, tables := [("element", exAT)] }
+example : (bound Fam.autough2 "read_table_line" == "read_table_line_AUTOUGH2") = true ∧ exARd.tables.lookup "element" = some exAT ∧
+    exARd.pos.rest = Proofs.Whole.autRegion [" a title line\n".toList] "\n".toList [" ELEM INDEX P T\n".toList] "\n".toList [] exAD " EEEEE\n".toList ["\n".toList] ∧
+    Props.C05.TableRegionA "element" exAT [" a title line\n".toList] "\n".toList [" ELEM INDEX P T\n".toList] "\n".toList [] exAD " EEEEE\n".toList ∧
+    (∀ e ∈ [((1 : Int), ['T'], false, 0), (0, ['P'], true, 1), (1, ['P'], false, 2)], 0 ≤ e.1 ∧ e.1 < (exAD.length : Int)) :=
+  ⟨by decide, rfl, rfl, by decide, by decide⟩
+-- the pass over the data lines: T of row 1, -P of row 0 (reversed name), P of row 1, returned in line order
+example : (scanSel (readTableLineOf Fam.autough2 exAT) (colIdx exAT.cols) (sortSel [(1, ['T'], false, 0), (0, ['P'], true, 1), (1, ['P'], false, 2)]) 0
+    ((exAD ++ [" EEEEE\n".toList]).headD []) ((exAD ++ [" EEEEE\n".toList]).tail ++ ["\n".toList])).map (·.1)
+    = .ok [(1, .fin true 15 (-1)), (2, .fin false 35 (-1)), (0, .fin false 45 (-1))] := by decide +kernel
+-- skip_to_results_line (2 floats awaited) from the column header stops at the first data line
+example : (∀ x ∈ [" ELEM INDEX P T\n".toList] ++ "\n".toList :: [], isResultsLine (strip x) 2 = false) ∧
+    isResultsLine (strip " A 1  1  1.5 2.5\n".toList) 2 = true := by decide
 
 /-! ### over all result times: one value per result time, in time order
 
